@@ -2243,3 +2243,10 @@ mod tests {
         }
     }
 }
+
+// Verification hook: harness sources kept outside this repository, compiled only by cargo-kani with
+// the `prio_verif` feature, mounted here so that they can reach this module's private items.
+#[cfg(all(kani, feature = "prio_verif"))]
+mod verif_harness {
+    include!(concat!(env!("PRIO_VERIF_DIR"), "/in_prio3.rs"));
+}
